@@ -32,3 +32,44 @@ fn c19_fieldtype_total_set() {
     kani::cover!(ok, "some truncation parses");
     core::mem::forget(r);
 }
+
+fn open_list(prefix: &'static [u8]) {
+    // `enum(` / `set(` followed by exactly 2 symbolic characters from the delimiter alphabet, then end of
+    // input. The LENGTH is concrete (a symbolic length makes every end-of-string test symbolic and drags the
+    // Unicode tables of to_lowercase/is_alphanumeric into the formula); a trailing space is skipped by the
+    // parser as whitespace, so shorter inputs are covered too.
+    let mut buf = [b' '; 8];
+    let pl = prefix.len();
+    let mut i = 0;
+    while i < pl {
+        buf[i] = prefix[i];
+        i += 1;
+    }
+    let (c0, c1): (u8, u8) = (kani::any(), kani::any());
+    kani::assume(c0 < 6 && c1 < 6);
+    let pick = |c: u8| -> u8 {
+        if c == 0 { b'(' } else if c == 1 { b')' } else if c == 2 { b' ' } else if c == 3 { b',' } else if c == 4 { b';' } else { b'a' }
+    };
+    buf[pl] = pick(c0);
+    buf[pl + 1] = pick(c1);
+    let s = unsafe { core::str::from_utf8_unchecked(&buf[..pl + 2]) };
+    let mut p = Parser::of(s);
+    let r = FieldType::try_parse(&mut p);
+    let ok = r.is_ok();
+    kani::cover!(ok, "some input parses");
+    core::mem::forget(r);
+}
+
+#[kani::proof]
+#[kani::unwind(10)]
+#[kani::stub(alloc::fmt::format, crate::verif_support::fake_format)]
+fn c19_enum_list_terminates() {
+    open_list(b"enum(");
+}
+
+#[kani::proof]
+#[kani::unwind(10)]
+#[kani::stub(alloc::fmt::format, crate::verif_support::fake_format)]
+fn c19_set_list_terminates() {
+    open_list(b"set(");
+}
